@@ -22,7 +22,7 @@ LEVEL = "exploration"
 SIGS = [[("a", "int")], [("a", "double")], [("a", "int"), ("b", "int")], [("a", "double"), ("b", "int")], [("a", "long"), ("b", "double"), ("c", "int")]]
 
 
-def make_group(name, nover, ndef, explicit, tmpl, generic, cls=None):
+def make_group(name, nover, ndef, explicit, tmpl, generic, cls=None, strres=False):
     """One C++ name with 'nover' overloads; the first gets 'ndef' trailing defaults; suffix policy 'explicit'."""
     fs = []
     for i in range(nover):
@@ -30,10 +30,13 @@ def make_group(name, nover, ndef, explicit, tmpl, generic, cls=None):
         # is ambiguous in C++ whatever the suffix / template / generic options are
         tys = ["int", "double", "long", "int", "double", "long", "int"]
         params = [P("p%d" % j, "val", tys[(j + i) % len(tys)]) for j in range(1 + 3 * i)]
-        f = F(name, "int", params, fid="%s#%d" % (name, i))
+        f = F(name, "cstr" if strres else "int", params, fid="%s#%d" % (name, i))
         if cls:
             f["cls"] = cls
         y = {}
+        if strres:
+            # the Fortran wrapper becomes a subroutine with the result as an extra argument; names keep their suffixes
+            y["format"] = {"F_string_result_as_arg": "output"}
         if i == 0 and ndef:
             extra = [P("d%d" % j, "val", "int", default=str(3 + j)) for j in range(ndef)]
             f["params"] = f["params"] + extra
@@ -44,7 +47,7 @@ def make_group(name, nover, ndef, explicit, tmpl, generic, cls=None):
             elif explicit == "default_arg_suffix_long":
                 y["default_arg_suffix"] = ["_n%d" % j for j in range(ndef + 2)]      # the surplus entry is unused
         if explicit == "function_suffix" and not (i == 0 and ndef):
-            y["format"] = {"function_suffix": "_v%s" % "abc"[i]}
+            y["format"] = dict(y.get("format") or {}, function_suffix="_v%s" % "abc"[i])
         if i == nover - 1 and tmpl:
             f["params"] = [P("t", "val", "ArgType")] + f["params"][1:]
             f["template"] = ["int", "double"]
@@ -373,6 +376,19 @@ def main(rec):
             groups = [make_group("g%dname" % gi, *r.choice(combos)[:5], cls=r.choice([None, "K0", "K1"])) for gi in range(r.randint(2, 8))]
             groups = [g for g in groups if not (any(f.get("template") for f in g) and any(f.get("cls") for f in g))]
             cases.append({"lib": build_lib("r%d" % k, groups, "c++", ("c", "fortran"), namespace=r.choice([None, "outer"]), interleave=r.random() < 0.5)})
+    # string results returned through an argument (format F_string_result_as_arg) in overload / default sets
+    sk = 0
+    groups = []
+    for nover, ndef, explicit, incls in itertools.product([1, 2, 3], [0, 1, 2], [None, "function_suffix", "default_arg_suffix"], [False, True]):
+        if (explicit == "default_arg_suffix" and not ndef) or (nover == 1 and not ndef and not explicit):
+            continue
+        groups.append(make_group("s%dname" % (len(groups) % 5), nover, ndef, explicit, False, None, cls=("K0" if incls else None), strres=True))
+        if len(groups) == 5:
+            cases.append({"lib": build_lib("nstr%d" % sk, groups, "c++", ("c", "fortran"), interleave=(sk % 2 == 1))})
+            sk += 1
+            groups = []
+    if groups:
+        cases.append({"lib": build_lib("nstr%d" % sk, groups, "c++", ("c", "fortran"))})
     # cpp_if on some members of an overload set (first / last / middle member guarded)
     cpp_cases = []
     for ci, (nover, which) in enumerate([(2, [0]), (2, [1]), (3, [0]), (3, [1]), (3, [0, 2]), (3, [2])]):
